@@ -32,13 +32,22 @@ def _worker(modname, spec, q):
         q.put(('err', {'name': spec.get('name', '?'), 'error': f'{type(e).__name__}: {e}', 'trace': traceback.format_exc()[-3000:]}))
 
 
-def run_jobs(modname, specs, nproc, default_timeout):
-    """longest-first scheduling, one process per job, per-job timeout -> inconclusive"""
+def run_jobs(modname, specs, nproc, default_timeout, wall_budget=None):
+    """longest-first scheduling, one process per job, per-job timeout -> inconclusive. Two brakes keep a run on code that the
+    engine cannot follow (every job timing out) bounded: after 4 timeouts the remaining jobs get a quarter of their time, and
+    after `wall_budget` seconds nothing new is started and what still runs is stopped (all reported as inconclusive)."""
     ctx = mp.get_context('fork')
     pending = sorted(specs, key=lambda s: -s.get('cost', 1))
     running = []
     results = []
+    timeouts = 0
+    start = time.time()
     while pending or running:
+        over = wall_budget is not None and time.time() - start > wall_budget
+        if over and pending:
+            for spec in pending:
+                results.append((spec, ('err', {'name': spec.get('name'), 'error': f'not run: wall budget of {wall_budget} s used up'})))
+            pending = []
         while pending and len(running) < nproc:
             spec = pending.pop(0)
             q = ctx.Queue()
@@ -64,9 +73,13 @@ def run_jobs(modname, specs, nproc, default_timeout):
                 except Exception:
                     results.append((spec, ('err', {'name': spec.get('name'), 'error': f'worker died (exit {p.exitcode})'})))
                 continue
-            if time.time() - t0 > spec.get('timeout', default_timeout):
+            limit = spec.get('timeout', default_timeout)
+            if timeouts >= 4:
+                limit = max(120, limit / 4)
+            if time.time() - t0 > limit or over:
                 p.terminate()
-                results.append((spec, ('err', {'name': spec.get('name'), 'error': f"timeout after {spec.get('timeout', default_timeout)} s"})))
+                timeouts += 1
+                results.append((spec, ('err', {'name': spec.get('name'), 'error': f"timeout after {int(time.time() - t0)} s"})))
                 continue
             still.append((p, q, spec, t0))
         running = still
@@ -108,7 +121,8 @@ def main():
         sys.exit(3)
     if a.only:
         specs = [s for s in specs if a.only in s.get('name', '')]
-    results = run_jobs(MODULES[pid], specs, a.jobs, getattr(mod, 'JOB_TIMEOUT', {}).get(a.tier, 1800))
+    wall = float(os.environ.get('VERIF_WALL', 0)) or getattr(mod, 'WALL_BUDGET', {}).get(a.tier, 2400 if a.tier == 'quick' else 6 * 3600)
+    results = run_jobs(MODULES[pid], specs, a.jobs, getattr(mod, 'JOB_TIMEOUT', {}).get(a.tier, 1800), wall)
     known = load_known()
     known_keys = {f['key']: f for f in known.get('findings', []) if f.get('property') == pid}
     obligations = discharged = trivial = queries = paths = 0
